@@ -2,5 +2,6 @@ use vergen::EmitBuilder;
 
 fn main() {
     println!("cargo::rustc-check-cfg=cfg(grmtools_extra_checks)");
+    println!("cargo::rustc-check-cfg=cfg(grmtools_verif)");
     EmitBuilder::builder().build_timestamp().emit().unwrap();
 }
